@@ -20,6 +20,7 @@ import (
 	"github.com/ozontech/seq-db/disk"
 	"github.com/ozontech/seq-db/frac"
 	"github.com/ozontech/seq-db/fracmanager"
+	"github.com/ozontech/seq-db/parser"
 	"github.com/ozontech/seq-db/seq"
 
 	"verifharness/internal/vh"
@@ -82,7 +83,7 @@ func fracDict(seed int64, n int) [][]byte {
 	return res
 }
 
-func (e *fracEnv) build(dict [][]byte, seed int64) (*frac.Active, error) {
+func (e *fracEnv) build(dict [][]byte, extra map[string][][]byte, seed int64) (*frac.Active, error) {
 	e.n++
 	base := filepath.Join(e.dir, fmt.Sprintf("seq-db-%04d", e.n))
 	a := frac.NewActive(base, e.indexer, e.rl, e.cm.CreateDocBlockCache(), e.cm.CreateSortDocsCache(), &frac.Config{})
@@ -117,10 +118,52 @@ func (e *fracEnv) build(dict [][]byte, seed int64) (*frac.Active, error) {
 			}
 		}
 	}
+	// the wide shape: one document per extra field carrying all its values
+	for j, f := range vh.SortedKeys(extra) {
+		toks := []seq.Token{{Field: []byte("_all_"), Val: []byte{}}}
+		for _, v := range extra[f] {
+			toks = append(toks, seq.Token{Field: []byte(f), Val: v})
+		}
+		dp.Append([]byte(fmt.Sprintf(`{"w":%d}`, j)), nil, seq.ID{MID: seq.MID(900000 + j), RID: seq.RID(j)}, toks)
+		if dp.DocCount >= 200 {
+			if err := flush(); err != nil {
+				return nil, err
+			}
+		}
+	}
 	if err := flush(); err != nil {
 		return nil, err
 	}
 	return a, nil
+}
+
+// wideFields: hundreds of small fields, so that the token TABLE itself spans several 16 KiB index blocks while many
+// fields share one physical tokens block.
+func wideFields(n int) map[string][][]byte {
+	m := map[string][][]byte{}
+	for i := 0; i < n; i++ {
+		f := fmt.Sprintf("w%04d_%s", i, strings.Repeat("x", 24))
+		m[f] = [][]byte{[]byte(fmt.Sprintf("v%04d-a", i)), []byte(fmt.Sprintf("v%04d-b", i)), []byte(fmt.Sprintf("v%04d-c", i))}
+	}
+	return m
+}
+
+func wideTokens(extra map[string][][]byte) []tok {
+	fs := vh.SortedKeys(extra)
+	var toks []tok
+	str := func(s string) *string { return &s }
+	for k := 0; k < 48; k++ {
+		f := fs[(k*len(fs))/48+(k*7)%(len(fs)/48)]
+		i := string(extra[f][0][1:5])
+		toks = append(toks,
+			tok{field: f, lit: []term{{data: extra[f][k%3]}}},
+			tok{field: f, lit: patTerms("v*")},
+			tok{field: f, lit: patTerms("*-b")},
+			tok{field: f, lit: patTerms("v" + i + "-*")},
+			tok{field: f, r: &rng{from: str("v"), to: str("w"), incFrom: true}},
+		)
+	}
+	return toks
 }
 
 func (e *fracEnv) seal(a *frac.Active, base string) (pre, re *frac.Sealed, err error) {
@@ -134,15 +177,28 @@ func (e *fracEnv) seal(a *frac.Active, base string) (pre, re *frac.Sealed, err e
 	return pre, re, nil
 }
 
-func fracValues(f frac.Fraction, t tok) (res string) {
+// fracSession: ONE token index instance of the fraction (as a search request builds it) answering the tokens in order.
+func fracSession(f frac.Fraction, toks []tok) (res []string) {
+	dp, release := f.DataProvider(context.Background())
+	defer release()
+	sess, err := frac.VerifTokenValuesSession(dp)
+	for _, t := range toks {
+		if err != nil {
+			res = append(res, "err: "+err.Error())
+			continue
+		}
+		res = append(res, sessValues(sess, t))
+	}
+	return res
+}
+
+func sessValues(sess func(parser.Token) ([][]byte, error), t tok) (res string) {
 	defer func() {
 		if r := recover(); r != nil {
 			res = fmt.Sprintf("panic: %v", r)
 		}
 	}()
-	dp, release := f.DataProvider(context.Background())
-	defer release()
-	vals, err := frac.VerifTokenValues(dp, t.parserToken())
+	vals, err := sess(t.parserToken())
 	if err != nil {
 		return "err: " + err.Error()
 	}
@@ -254,40 +310,104 @@ func fracDictNum(seed int64, n int) [][]byte {
 	return res
 }
 
-func (h *H) runFrac(env *fracEnv, seed int64, n int, toks []tok, only bool) {
+// fracTok / parseFracTok: tokens with their field, for the replay lines
+func fracTokStr(t tok) string { return t.fld() + "=" + t.String() }
+
+func parseFracTok(s string) (tok, error) {
+	p := strings.SplitN(s, "=", 2)
+	if len(p) != 2 {
+		return tok{}, fmt.Errorf("bad frac token %q", s)
+	}
+	t, err := parseTok(p[1])
+	t.field = p[0]
+	return t, err
+}
+
+// runFrac builds the fraction for (seed, n) and asks every form (active, sealed, reopened) the tokens through ONE
+// token index per pass - forward and reversed order - comparing every answer with the stateless reference.
+// n%10 == 1: number-heavy dictionary; n%10 == 2: wide shape (n-2 small extra fields).
+// seqs != nil (replay): only these explicit call sequences are run.
+func (h *H) runFrac(env *fracEnv, seed int64, n int, seqs [][]tok) {
 	dict := fracDict(seed, n)
-	if n%10 == 1 { // sizes ending in 1 select the number-heavy dictionary (kept in the replay line through n)
+	var extra map[string][][]byte
+	switch n % 10 {
+	case 1:
 		dict = fracDictNum(seed, n)
+	case 2:
+		dict = fracDict(seed, 40)
+		extra = wideFields(n - 2)
 	}
-	if toks == nil {
-		toks = h.fracTokens(dict, h.o.Pick(60, 400))
+	if seqs == nil {
+		toks := h.fracTokens(dict, h.o.Pick(60, 400))
+		if extra != nil {
+			toks = append(h.fracTokens(dict, 10), wideTokens(extra)...)
+		}
+		rev := make([]tok, len(toks))
+		for i, t := range toks {
+			rev[len(toks)-1-i] = t
+		}
+		seqs = [][]tok{toks, rev}
 	}
-	a, err := env.build(dict, seed)
+	a, err := env.build(dict, extra, seed)
 	if err != nil {
 		h.orFrac.Error = "building the active fraction: " + err.Error()
 		return
 	}
-	want := make([]string, len(toks))
+	ref := func(t tok) string {
+		if t.fld() == "f" {
+			return refValues(dict, t)
+		}
+		return refValues(extra[t.fld()], t)
+	}
 	check := func(form string, f frac.Fraction) {
-		for i, t := range toks {
-			if !t.wf() {
-				continue
+		for si, sq := range seqs {
+			var toks []tok
+			for _, t := range sq {
+				if t.wf() {
+					toks = append(toks, t)
+				}
 			}
-			got := fracValues(f, t)
-			key := fmt.Sprintf("frac seed=%d n=%d form=%s tok=%s", seed, n, form, t)
-			kt := "tok=range"
-			if t.r == nil {
-				kt = "tok=" + shape(t.lit)[6:]
-			}
-			h.orFrac.Case(key, want[i] != "ok -", "form="+form, kt, fmt.Sprintf("dict=%d", n))
-			if got != want[i] {
-				h.violate("frac:GetTIDsByTokenExpr("+form+")", "token-set-differs-from-scan",
-					fmt.Sprintf("%s fraction, dictionary of %d values: token %s returns %s, the reference filter gives %s", form, n, t, short(got), short(want[i])), key)
+			got := fracSession(f, toks)
+			for i, t := range toks {
+				want := ref(t)
+				kt := "tok=range"
+				if t.r == nil {
+					kt = "tok=" + shape(t.lit)[6:]
+				}
+				fk := "field=f"
+				if t.fld() != "f" {
+					fk = "field=wide"
+				}
+				h.orFrac.Case(fmt.Sprintf("frac seed=%d n=%d form=%s pass=%d tok=%s", seed, n, form, si, fracTokStr(t)), want != "ok -", "form="+form, kt, fk, fmt.Sprintf("dict=%d", n))
+				if got[i] == want {
+					continue
+				}
+				// locate: alone, or after which earlier call?
+				replay := []tok{t}
+				class := "token-set-differs-from-scan"
+				if alone := fracSession(f, []tok{t}); alone[0] == want {
+					class = "answer-depends-on-earlier-call"
+					replay = append(append([]tok{}, toks[:i]...), t)
+					for j := i - 1; j >= 0; j-- {
+						if two := fracSession(f, []tok{toks[j], t}); two[1] != want {
+							replay = []tok{toks[j], t}
+							break
+						}
+					}
+					if len(replay) > 40 {
+						replay = replay[len(replay)-40:]
+					}
+				}
+				var rs []string
+				for _, x := range replay {
+					rs = append(rs, fracTokStr(x))
+				}
+				h.violate("frac:GetTIDsByTokenExpr("+form+")", class,
+					fmt.Sprintf("%s fraction, dictionary of %d values (shape n=%d): one token index, calls %s: the last call returns %s, the reference filter of its field gives %s", form, len(dict), n, strings.Join(rs, " | "), short(got[i]), short(want)),
+					fmt.Sprintf("frac seed=%d n=%d seq=%s", seed, n, strings.Join(rs, "|")))
+				return // one located violation per form is enough
 			}
 		}
-	}
-	for i, t := range toks {
-		want[i] = refValues(dict, t)
 	}
 	check("active", a)
 	base := a.BaseFileName
@@ -298,8 +418,10 @@ func (h *H) runFrac(env *fracEnv, seed int64, n int, toks []tok, only bool) {
 	}
 	check("sealed", pre)
 	check("reopened", re)
-	// how many token-table entries did field f get?
 	h.orFrac.Distribution[fmt.Sprintf("dict-bytes>=%dKiB", dictBytes(dict)/16384*16)]++
+	if extra != nil {
+		h.orFrac.Distribution[fmt.Sprintf("wide-fields=%d", len(extra))]++
+	}
 }
 
 func dictBytes(d [][]byte) int {
@@ -320,22 +442,23 @@ func (h *H) genFrac() {
 		return
 	}
 	defer env.close()
-	sizes := []int{5, 60, 2500, 5001}
+	sizes := []int{5, 60, 2500, 5001, 1502}
 	if h.o.Thorough() {
-		sizes = []int{1, 5, 60, 700, 2500, 5001, 6000, 12001, 20000}
+		sizes = []int{1, 5, 60, 700, 2500, 5001, 1502, 6000, 12001, 3002, 20000}
 	}
 	for rep := 0; rep < h.o.Pick(1, 3); rep++ {
 		for i, n := range sizes {
-			h.runFrac(env, h.o.Seed+int64(i)+int64(1000*rep), n, nil, false)
+			h.runFrac(env, h.o.Seed+int64(i)+int64(1000*rep), n, nil)
 		}
 	}
 }
 
-// replayFrac: `frac seed=<s> n=<n> form=<f> tok=<token>` (all three forms are re-run)
+// replayFrac: `frac seed=<s> n=<n> seq=<field>=<token>|<field>=<token>|...` (all three forms are re-run);
+// the older form `tok=<token>` (field f, single call) is accepted too.
 func (h *H) replayFrac(f []string) error {
 	var seed int64
 	var n int
-	var t tok
+	var sq []tok
 	for _, kv := range f[1:] {
 		p := strings.SplitN(kv, "=", 2)
 		if len(p) != 2 {
@@ -347,20 +470,29 @@ func (h *H) replayFrac(f []string) error {
 		case "n":
 			n, _ = strconv.Atoi(p[1])
 		case "tok":
-			var err error
-			if t, err = parseTok(p[1]); err != nil {
+			t, err := parseTok(p[1])
+			if err != nil {
 				return err
+			}
+			sq = []tok{t}
+		case "seq":
+			for _, x := range strings.Split(p[1], "|") {
+				t, err := parseFracTok(x)
+				if err != nil {
+					return err
+				}
+				sq = append(sq, t)
 			}
 		}
 	}
-	if n == 0 {
-		return fmt.Errorf("missing n")
+	if n == 0 || len(sq) == 0 {
+		return fmt.Errorf("missing n or tokens")
 	}
 	env, err := newFracEnv()
 	if err != nil {
 		return err
 	}
 	defer env.close()
-	h.runFrac(env, seed, n, []tok{t}, true)
+	h.runFrac(env, seed, n, [][]tok{sq})
 	return nil
 }
